@@ -291,7 +291,7 @@ class Run:
             self.apis.append(api)
             self.devs.append({"slots": [], "pending": None})
             self.log(ev="Open", c=k + 1, api=inst["api"], dev=list(unhexlify(inst["dev"])), key=list(unhexlify(inst["key"])))
-            await api.connect()
+            await vnet.bounded(api.connect())
             self.net.conns[-1].tag = k
             self.log(ev="Connect", c=k + 1, ok=True, flag=bool(api.connected))
         n = len(scn["inst"])
@@ -443,10 +443,14 @@ class Run:
             self.log(ev="Reply", c=k + 1, b=list(data), src="device" if (d["t"] == "listing" and data) else "script")
             conn.feed(data)
         for k, api in enumerate(self.apis):
-            await api.disconnect()
+            raised = False
+            try:
+                await vnet.bounded(api.disconnect())
+            except Exception:  # noqa: BLE001 - judged by the specification (C18: disconnect is harmless in every state)
+                raised = True
             await vnet.settle(3)
-            conn = [c for c in self.net.conns if c.tag == k][-1]
-            self.log(ev="Disc", c=k + 1, how="disconnect", raised=False, flag=bool(api.connected), eof=bool(conn.closed_seen))
+            conn = self._conn(k)
+            self.log(ev="Disc", c=k + 1, how="disconnect", raised=raised, flag=bool(api.connected), eof=bool(conn.closed_seen))
 
     @staticmethod
     async def _wrap(coro, patience=None):
@@ -470,12 +474,12 @@ class Run:
         old = [c for c in self.net.conns if c.tag == k][-1]
         raised = False
         try:
-            await api.disconnect()
+            await vnet.bounded(api.disconnect())
         except Exception:  # noqa: BLE001
             raised = True
         await vnet.settle(3)
         self.log(ev="Disc", c=k + 1, how="disconnect", raised=raised, flag=bool(api.connected), eof=bool(old.closed_seen))
-        await api.connect()
+        await vnet.bounded(api.connect())
         self.net.conns[-1].tag = k
         self.log(ev="Connect", c=k + 1, ok=True, flag=bool(api.connected))
         return (None, None)
@@ -576,7 +580,7 @@ class ScriptRun(Run):
             self.apis.append(api)
             self.devs.append({"slots": [], "pending": None})
             self.log(ev="Open", c=k + 1, api=inst["api"], dev=list(unhexlify(inst["dev"])), key=list(unhexlify(inst["key"])))
-            await api.connect()
+            await vnet.bounded(api.connect())
             self.net.conns[-1].tag = k
             self.log(ev="Connect", c=k + 1, ok=True, flag=bool(api.connected))
         n = len(scn["inst"])
@@ -647,10 +651,14 @@ class ScriptRun(Run):
         for k, api in enumerate(self.apis):
             if tasks[k] is not None:
                 tasks[k].cancel()
-            await api.disconnect()
+            raised = False
+            try:
+                await vnet.bounded(api.disconnect())
+            except Exception:  # noqa: BLE001
+                raised = True
             await vnet.settle(3)
-            conn = [c for c in self.net.conns if c.tag == k][-1]
-            self.log(ev="Disc", c=k + 1, how="disconnect", raised=False, flag=bool(api.connected), eof=bool(conn.closed_seen))
+            conn = self._conn(k)
+            self.log(ev="Disc", c=k + 1, how="disconnect", raised=raised, flag=bool(api.connected), eof=bool(conn.closed_seen))
 
 
 def run_script(scn: dict) -> list[dict]:
